@@ -40,10 +40,12 @@ def run(ctx):
     rdrift = 0
     maxout = 0
     for i, rr in enumerate(runs):
-        cr = srvfam.consts(ctx, NReq=rr["nreq"], Tags=set(range(1, rr["nt"] + 1)), Fids={1, 2, 3},
-                           Kinds={"Attach", "Stat", "Clunk", "Walk", "Flush"}, Extra=True, Late=True, InitFids={1})
-        rc = {"cases": rr["cases"], "nreq": rr["nreq"], "kinds": ["Attach", "Stat", "Stat", "Clunk", "Walk", "Flush"],
-              "shared": False, "close": False, "extra": True, "latep": 15, "sendp": 35 if rr["nreq"] < 40 else 70, "probe": False, "hold": rr.get("hold", False)}
+        ver = bool(rr.get("version"))
+        cr = srvfam.consts(ctx, NReq=rr["nreq"], Tags=set(range(1, rr["nt"] + (2 if ver else 1))), Fids={1, 2, 3},
+                           Kinds={"Attach", "Stat", "Clunk", "Walk", "Flush"} | ({"Version"} if ver else set()), Extra=not ver, Late=True,
+                           InitFids={1}, SharedTags=ver, NoTag=(rr["nt"] + 1) if ver else 0)
+        rc = {"cases": rr["cases"], "nreq": rr["nreq"], "kinds": ["Attach", "Stat", "Stat", "Clunk", "Walk", "Flush"] + (["Version", "Stat"] if ver else []),
+              "shared": ver, "close": False, "extra": not ver, "latep": 15, "sendp": 35 if rr["nreq"] < 40 else 70, "probe": False, "hold": rr.get("hold", False)}
         tag = "rand%d" % i
         # every second run goes through the SrvReqProcessOps override path (same specification)
         rrep, tpath, epath, bpath = srvfam.random_run(ctx, cr, rc, tag, 100000 * (i + 1), processops=(i % 2 == 1))
